@@ -41,6 +41,7 @@ type vProbeScen struct {
 	ForeignNack int         `json:"foreignNack"`
 	DupAck      bool        `json:"dupAck"`
 	Score0      int         `json:"score0"`
+	SendErr     bool        `json:"sendErr"`
 }
 
 type vRelayScen struct {
@@ -201,10 +202,14 @@ func vRunProbe(t *testing.T, s *vSink, id int, sc vProbeScen) (l vProbeLine) {
 			case conn := <-trT.streamCh:
 				go func(conn net.Conn) {
 					defer conn.Close()
-					if sc.Tcp != "ok" {
+					if sc.Tcp != "ok" && sc.Tcp != "late" {
 						return
 					}
-					_ = conn.SetDeadline(time.Now().Add(5 * time.Second))
+					if sc.Tcp == "late" {
+						// answer only after the probe's deadline has passed
+						time.Sleep(time.Until(start.Add(deadline + 150*time.Millisecond)))
+					}
+					_ = conn.SetDeadline(time.Now().Add(20 * time.Second))
 					buf := make([]byte, 4096)
 					k, err := conn.Read(buf)
 					if err != nil || k < 2 || messageType(buf[0]) != pingMsg {
@@ -268,6 +273,10 @@ func vRunProbe(t *testing.T, s *vSink, id int, sc vProbeScen) (l vProbeLine) {
 	if sc.Score0 > 0 {
 		P.awareness.ApplyDelta(sc.Score0)
 	}
+	if sc.SendErr {
+		// a local send failure: the target's name is required but the transport is asked without one
+		trP.failSends = true
+	}
 	nw.setFaults(vNetFaults{MinDelay: 100 * time.Microsecond})
 
 	P.nodeLock.RLock()
@@ -282,7 +291,7 @@ func vRunProbe(t *testing.T, s *vSink, id int, sc vProbeScen) (l vProbeLine) {
 		P.probeNode(&target)
 		close(done)
 	}()
-	time.Sleep(deadline + 700*time.Millisecond)
+	time.Sleep(deadline + 900*time.Millisecond)
 	synctest.Wait()
 	select {
 	case <-done:
